@@ -5,7 +5,12 @@
    lsw / lsx are arbitrary functions of the whole state, so the statements hold for every numerical update rule, every
    convergence / callback decision sequence, mask and sparsity setting and every iteration budget.  pre / pre_on is
    parafac's orthogonalise hook (an arbitrary replacement of every NON-FIXED factor, commit ef1ea18), ls_on / lsf its
-   line search. *)
+   line search.
+   Round 8 (end of this file): partial_tucker's main loop is modelled (Model Section PartialTucker: where it writes; what it computes is arbitrary)
+   -- C14_partial_tucker_sweep_writes / _model_shape, C14_tucker_hoi_keeps_fixed (tucker around the modelled loop: no hypothesis on the inner
+   routine); the tie of tucker's branch is semantic in the comprehension conditions (C14_pick_condition_ext, C14_picked_positions,
+   C14_tucker_branch_by_mode_lists_agrees); C14_fixed_modes_interrupted: the fixed-mode statement at every moment INSIDE a sweep
+   (Model Section InterruptedSkel), observed by the harness through injected interruptions (Corr case CInterrupt). *)
 From Coq Require Import String.
 From Coq Require Import List Arith Bool Ring ZArith Relations.
 From TLV Require Import Base.Shape Base.PyList Base.Tensor Base.BigSum Model.WarmStart Proofs.WarmStartProofs
@@ -974,3 +979,25 @@ Example C14_tucker_hoi_nonvacuous :
        (fun _ _ => tt) (fun _ _ => false) (fun _ _ _ => tt) 2)
   = Ok (mk [1; 1] [4%Z], [[[1%Z]]; [[9%Z]]]).
 Proof. exact tucker_hoi_example. Qed.
+
+(* ---- interrupted runs (Proofs/WarmStartSrc3.v, Section Interrupted): the state a driver is in when it is aborted in mid-sweep -- after any
+   number of complete iterations, the orthogonalise hook of the current iteration and the updates of any PREFIX (any sub-list) of the mode
+   list -- still holds the initial factor at every fixed mode: C14_fixed_modes at every moment of the run.  The harness observes exactly this
+   state (predicate C14_fixed_modes_interrupted: an exception injected into the k-th call of a routine the sweep uses; the driver's factor
+   list read from its frame). *)
+Theorem C14_fixed_modes_interrupted : forall (M W X : Type) upd stop normf pre pre_on post ls_on ls_accept lsf lsw lsx
+  (a : algo) (n : nat) (fixed : list nat) (d : M) (m : nat),
+  (has_hooks a = true -> forall it (s : st M W X) x, lsf it s x x = x) ->
+  In m (eff_fixed a n fixed) ->
+  forall (done_ it : nat) (l : list nat) (s : st M W X), (forall x, In x l -> In x (modes_list a n fixed)) ->
+  nth m (facs (interrupted_state upd stop normf pre pre_on post ls_on ls_accept lsf lsw lsx a
+                 (fun i => negb (memb i (eff_fixed a n fixed))) (modes_list a n fixed) done_ it l s)) d = nth m (facs s) d.
+Proof. exact @run_interrupted_fixed. Qed.
+Print Assumptions C14_fixed_modes_interrupted.
+
+Example C14_fixed_modes_interrupted_nonvacuous :
+  facs (interrupted_state (fun it m (s : st (list nat) unit unit) => (nth m (facs s) [] ++ [it], tt)) (fun _ _ => false) (fun s => s)
+          (fun _ _ _ => []) (fun _ => false) (fun _ _ => tt) (fun _ => false) (fun _ _ _ => false) (fun _ _ l c => c) (fun _ _ l c => c) (fun _ _ _ => tt)
+          Parafac (fun i => negb (memb i [0])) (modes_list Parafac 3 [0]) 1 1 [1] (mkst tt [[]; []; []] tt))
+  = [[]; [0; 1]; [0]].
+Proof. exact interrupted_example. Qed.
